@@ -1000,12 +1000,12 @@ impl Context<'_> {
                 .iter()
                 .map(|(name, value)| (self.constant_name(name), format!("{}", value)))
                 .collect(),
+            AsnType::Optional(inner) => self.to_rust_constants(inner),
 
             Type::Boolean
             | Type::Null
             | Type::String(..)
             | Type::OctetString(_)
-            | Type::Optional(_)
             | Type::Default(..)
             | Type::Sequence(_)
             | Type::SequenceOf(..)
